@@ -29,15 +29,19 @@ CLAIM = dict(
     "physical_box_clipped (a physical box with corners at the coordinates of arbitrary voxel positions selects what the VoxelArray of the floored positions selects, "
     "reversed and non-reversed axes, all dims), roi_clipping (selected range = boxRange; voxel j selected iff lo <= j < hi and j in the image; ROI entirely outside selects nothing), "
     "nest (any program of subregion / VoxelArray / CoordinateArray / time_slice / time_interval steps of ANY length keeps the image placed "
-    "in the root with composed offsets; induction over the program), physical_eq_voxel_box, time_slice / time_interval bookkeeping, "
-    "stack_slice (stack then time_slice returns data, dates and relative times). DATA ON ARRAYS (DarsiaModel.ImageArr: pixel array = function from the raw "
+    "in the root with composed offsets; induction over the program), nest_offsets (the composed offset is the accumulated sum of the normalised slice starts, explicitly), subCoords_unfold (definitional), time_slice / time_interval bookkeeping, "
+    "stack_slice_rel / stack_slice_dated / stack_slice_shared_reference / stack_slice_dates (stack then time_slice: data and dates exactly; relative time = the stored one for images "
+    "without dates, date_i - ref_0 for dated images with arbitrary stored times and reference dates, hence the original exactly when the images share one reference date - "
+    "this is how the property's stack sentence is read). DATA ON ARRAYS (DarsiaModel.ImageArr: pixel array = function from the raw "
     "numpy index to a value tag; numpy index arithmetic of subregion/time_slice/time_interval/np.stack): extract_data_eq (for every root - scalar/vector, single/series - "
     "and every extraction program: entry (t,v,c) of the result = root entry (root time index of slab t, v + composed offset, c)), extract_data_inv, append_data_eq, "
     "stack_slice_data. append_offset_keeps_times (an explicit offset, 0 included, "
     "keeps the stored relative times also for dated images), time_interval_keeps_stored_times. The relative time of a slab is what the parent "
     "stored (roots with dates AND independent stored times are covered), not a function of its date. Tie: differential correspondence on random programs (metadata + slab index lists, AND the whole pixel array entry by entry against np.arange-coded payloads) "
     "(exact, dyadic geometries) + oracle on the implementation tracing every voxel back to its root voxel.",
-    note="the model has value semantics: that stack() leaves the images passed in untouched and that extraction results do not alias their parent are checked by the oracle on the implementation; geometry on general (non-dyadic) floats is only covered by the oracle with a stated tolerance; Image.slice / reduce_axis are not part of C02; "
+    note="slices with a step other than 1 are outside the quantifier and not modelled (the code strides the data but derives dimensions from start/stop); Image.append compares dimensions/origin with "
+    "np.allclose and keeps the receiver's geometry (modelled with numpy's tolerance; appending an image whose geometry differs within 1e-5 relative is outside the quantifier and only counted); "
+    "extents >= 1e5 voxels (where np.allclose cannot tell neighbouring integers apart) are not modelled; the model has value semantics: that stack() leaves the images passed in untouched and that extraction results do not alias their parent are checked by the oracle on the implementation; geometry on general (non-dyadic) floats is only covered by the oracle with a stated tolerance; Image.slice / reduce_axis are not part of C02; "
     "tuple-of-slices reaching beyond the image are clipped since the fix of Image.subregion (before: outside the property's quantifier).",
     technique="Lean 4 proof (invariant over extraction programs) + differential correspondence + oracle search",
 )
@@ -113,6 +117,8 @@ def build_root(d, r):
     if has_times(r):
         ts = [float(s) / 4 for s in r["stamps"]]
         kw["time"] = ts if r["series"] else ts[0]
+    if r.get("ref") is not None:  # an explicit reference date shared by several images
+        kw["reference_date"] = EPOCH + timedelta(seconds=r["ref"])
     return call(d.Image, root_array(r), **kw)
 
 
@@ -430,9 +436,11 @@ def run_program(d, rng, r, nsteps, dyadic, malformed_at=None):
     return "prog " + " ; ".join(toks), im, root, toks, fails
 
 
-def stack_case(d, rng, n, tkind, dim, with_offsets):
+def stack_case(d, rng, n, tkind, dim, with_offsets, shared_ref=False):
     """Build n single-time images with a common geometry; stack (or append with offsets); slice again."""
     r0 = gen_root(rng, 0, dim=dim, series=False, tkind=tkind)
+    if shared_ref and has_dates(r0):
+        r0["ref"] = rng.randint(-100, 10)
     rs = []
     stamp = rng.randint(0, 20)
     for k in range(n):
@@ -463,7 +471,9 @@ def stack_eval(d, rs, offs):
                 res = rr
                 break
         line = None
-        if n == 2:
+        if n == 2 and rs[0].get("ref") is not None:
+            line = f"appendr {root_tokens(rs[0], origin)} {rs[0]['ref']} {root_tokens(rs[1], origin)} {rs[1]['ref']} {fmts([offs[0]])}"
+        elif n == 2:
             line = f"append {root_tokens(rs[0], origin)} {root_tokens(rs[1], origin)} {fmts([offs[0]])}"
     else:
         offs_ = [0] * (n - 1)
@@ -471,7 +481,10 @@ def stack_eval(d, rs, offs):
         twins = [build_root(d, r) for r in rs]
         passed, ims = ims, twins
         res = call(d.stack, passed)
-        line = f"stack {n} " + " ".join(root_tokens(r, origin) for r in rs)
+        if rs[0].get("ref") is not None:
+            line = f"stackr {n} " + " ".join(root_tokens(r, origin) + f" {r['ref']}" for r in rs)
+        else:
+            line = f"stack {n} " + " ".join(root_tokens(r, origin) for r in rs)
         if not isinstance(res, Raised):
             for k in range(n):
                 a_, b_ = passed[k], twins[k]
@@ -495,7 +508,9 @@ def stack_eval(d, rs, offs):
             fails.append(("C02:stack-then-time_slice:date", f"slice {k}: date {back.date} vs original {ims[k].date}"))
         if tkind in ("dates", "both"):
             # stack() (no offset) of dated images: relative to the first date; append(offset): the stored times, shifted
-            want = (ims[k].date - ims[0].date).total_seconds() if not with_offsets else ims[k].time + (shift[k - 1] if k else 0)
+            # READING of the property sentence: dates are returned exactly; relative times are relative to the reference date of the
+            # series = the reference date of the first image (with a shared reference date these ARE the originals' times)
+            want = (ims[k].date - ims[0].reference_date).total_seconds() if not with_offsets else ims[k].time + (shift[k - 1] if k else 0)
         elif tkind == "rel":
             want = ims[k].time + (shift[k - 1] if k else 0)
         else:
@@ -504,6 +519,11 @@ def stack_eval(d, rs, offs):
             cls = {"dates": "dates", "rel": "relative-times-only", "none": "no-time", "both": "dates-and-times"}[tkind]
             fails.append((f"C02:stack-then-time_slice:time:{cls}{':offset' if with_offsets else ''}",
                           f"slice {k} of {'append(offset)' if with_offsets else 'stack'} of {n} images carrying {cls}: relative time {back.time}, required {want} (series time {res.time})"))
+        if rs[0].get("ref") is not None and not with_offsets and tkind == "dates":
+            # shared reference date: the slice IS the original, relative time and reference date included
+            if back.time != ims[k].time or back.reference_date != ims[k].reference_date:
+                fails.append(("C02:stack-then-time_slice:shared-reference:not-the-original",
+                              f"slice {k}: time {back.time} / reference {back.reference_date}, original {ims[k].time} / {ims[k].reference_date}"))
         if not np.array_equal(np.asarray(back.origin), np.asarray(ims[k].origin)) or list(back.dimensions) != list(ims[k].dimensions):
             fails.append(("C02:stack-then-time_slice:geometry", f"slice {k}: origin/dimensions changed"))
     return line, res, rs, offs, fails
@@ -514,7 +534,8 @@ def assembled_eval(d, ra, rb, off, rng=None, steps=None):
     Returns (model request line, implementation response, failures, step tokens)."""
     a, b2 = build_root(d, ra), build_root(d, rb)
     origin = [float(x) for x in np.asarray(a.origin)]
-    head = f"append {root_tokens(ra, origin)} {root_tokens(rb, origin)} {'none' if off is None else fmts([off])}"
+    origin_b = [float(x) for x in np.asarray(b2.origin)]
+    head = f"append {root_tokens(ra, origin)} {root_tokens(rb, origin_b)} {'none' if off is None else fmts([off])}"
     acc = a.copy()
     rr = call(acc.append, b2.copy()) if off is None else call(acc.append, b2.copy(), off)
     if isinstance(rr, Raised):
@@ -794,7 +815,7 @@ def run(ctx):
         with_off = (n % 3 == 2) and tkind != "none"
         if with_off and n % 2 == 0:
             k = 2  # two images: also a correspondence line for the model
-        out = call(stack_case, d, rng, k, tkind, rng.choice((2, 3)), with_off)
+        out = call(stack_case, d, rng, k, tkind, rng.choice((2, 3)), with_off, shared_ref=(n % 4 == 0 and n % 8 == 0) or (n % 5 == 0 and tkind in ("dates", "both")))
         if out is None or isinstance(out, Raised):
             ctx.mark("CORR-BROKEN", {"correspondence": "stack", "error": repr(out)})
             continue
@@ -810,8 +831,9 @@ def run(ctx):
             else:
                 dsc = call(describe, res, {r["rid"]: r for r in rs})
                 impl.append("!undescribable" if isinstance(dsc, Raised) else dsc)
-            lines.append(aline(line, rs[0]["vector"]))
-            impl.append(arr_str(res))
+            if not line.startswith(("stackr", "appendr")):
+                lines.append(aline(line, rs[0]["vector"]))
+                impl.append(arr_str(res))
     # series ASSEMBLED by append (offset None / 0 / 0.0 / non-zero; dated, undated, both, mixed), then extraction programs:
     # every extracted slab must carry exactly the time and date the assembled series stores for it
     for n in range(ctx.pick(120, 1500)):
@@ -821,6 +843,16 @@ def run(ctx):
         if rng.random() < 0.95:  # dates of the appended image after those of the receiver (else: AssertionError on both sides)
             shift = ra["stamps"][-1] + rng.randint(1, 20) - rb["stamps"][0]
             rb["stamps"] = [x + shift for x in rb["stamps"]]
+        if n % 9 == 4:
+            # the appended image's geometry differs slightly: append compares with np.allclose (1e-8 + 1e-5 |b|) and keeps the receiver's
+            # geometry; within the tolerance (factor 1 + 2^-20) it is accepted, outside (1 + 2^-6) refused. Outside the property's quantifier
+            # (images of one series share one geometry); the model mirrors the acceptance rule.
+            fct = rng.choice([1 + 2.0 ** -20, 1 + 2.0 ** -6])
+            k_ = rng.randrange(ra["dim"])
+            rb["dims"] = [x * (fct if i == k_ else 1.0) for i, x in enumerate(rb["dims"])]
+            if rb["origin"] is None and ra["origin"] is None and fct > 1.001:
+                pass
+            OUTSIDE["append-geometry-differs-within/outside-allclose"] = OUTSIDE.get("append-geometry-differs-within/outside-allclose", 0) + 1
         off = [None, 0, 0.0, rng.randint(1, 40) / 4, float(100 * rng.randint(1, 5))][n % 5]
         out = call(assembled_eval, d, ra, rb, off, rng, None)
         if isinstance(out, Raised):
